@@ -518,6 +518,16 @@ class World:
         whole = F.FT(t)
         if len(parts) > 1:
             ex.assume(whole == T.ty_concat(*[F.FT(p) for p in parts]))
+        if getattr(F, 'adjoints', False):
+            # a rigid functor commutes with adjoints (assumed contract of the type branch of rigid.Functor.__call__)
+            for p_ in parts:
+                key = ('adjoint', F.name, p_.sexpr())
+                if key in F.images:
+                    continue
+                F.images[key] = True
+                for side in ('l', 'r'):
+                    adj_p = self.ty_adjoint(interp, p_, side)
+                    ex.assume(F.FT(adj_p) == self.ty_adjoint(interp, F.FT(p_), side))
         if getattr(F, 'slash', False):
             for p_ in parts:
                 key = ('slash', F.name, p_.sexpr())
@@ -595,9 +605,15 @@ class World:
             return VSlice(*a)
         if cls == 'py.bool':
             return VBool(ex.truth(args[0]))
+        if cls in ('monoidal.Ty', 'rigid.Ty', 'biclosed.Ty') and not args and not kwargs:
+            return VTy(T.EMPTY)
         if cls == 'rigid.Id':
             cls = 'monoidal.Id'        # same fields; the rigid class only upgrades (abstract Upgrade contract)
         init = cls + '.__init__'
+        if init in self.contracts and getattr(self.contracts[init], 'make', None) is not None:
+            # call-site contract of a box constructor: the class invariant as a fresh box (verified against the body of
+            # __init__ by the contract of the same name)
+            return self.contracts[init].make(interp, list(args), dict(kwargs))
         if init in self.contracts:
             return self.apply(interp, init, args, kwargs, construct=cls)
         raise Unsupported('construction of ' + cls)
@@ -626,6 +642,7 @@ class World:
         ('rigid.Diagram', 'caps'): 'rigid.caps',
         ('rigid.Id', 'id'): 'monoidal.Id.__init__',
         ('cat.Arrow', 'id'): 'cat.Id.__init__',
+        ('rigid.Diagram', 'cups'): 'rigid.cups', ('rigid.Diagram', 'caps'): 'rigid.caps',
         ('monoidal.Diagram', 'normalize'): 'rewriting.normalize',
         ('rigid.Diagram', 'fa'): 'rigid.Diagram.fa', ('rigid.Diagram', 'ba'): 'rigid.Diagram.ba',
         ('rigid.Diagram', 'fc'): 'rigid.Diagram.fc', ('rigid.Diagram', 'bc'): 'rigid.Diagram.bc',
@@ -753,6 +770,7 @@ SUPER = {
     ('biclosed.FC', '__init__'): 'monoidal.Box.__init__', ('biclosed.BC', '__init__'): 'monoidal.Box.__init__',
     ('biclosed.FX', '__init__'): 'monoidal.Box.__init__', ('biclosed.BX', '__init__'): 'monoidal.Box.__init__',
     ('biclosed.Curry', '__init__'): 'monoidal.Box.__init__',
+    ('rigid.Cup', '__init__'): 'rigid.Box.__init__', ('rigid.Cap', '__init__'): 'rigid.Box.__init__',
 }
 
 
